@@ -486,11 +486,12 @@ EXN = {"AttributeError": "EAttribute", "IndexError": "EIndex", "TypeError": "ETy
        "ValueError": "EValue", "KeyError": "EKey", "AssertionError": "EAssert"}
 
 
-def g_out(outcome) -> str:
+def g_out(outcome, is_read: bool = False) -> str:
+  """`is_read`: the outcome of a get operation (a value, possibly None); otherwise None means "no result"."""
   if outcome[0] == "exc":
     return f"(OErr {EXN.get(outcome[1], 'EOther')})"
   v = outcome[1]
-  if v is None:
+  if v is None and not is_read:
     return "OUnit"
   if isinstance(v, list):
     return f"(OList {g_list([g_val(x) for x in v])})"
